@@ -273,7 +273,7 @@ type Net struct {
 	links   []*Link
 	OnDial  func(l *Link) error // fault plan hook: configure or refuse a new link
 	OnFirstWrite func(l *Link, data []byte)
-	Refuse  bool
+	refuse  bool
 }
 
 func New() *Net { return &Net{ch: make(chan net.Conn), closed: make(chan struct{})} }
@@ -291,6 +291,9 @@ func (n *Net) Addr() net.Addr { return addr("server") }
 
 func (n *Net) Links() []*Link { n.mu.Lock(); defer n.mu.Unlock(); return append([]*Link(nil), n.links...) }
 
+// SetRefuse makes every dial from now on fail ("connection refused") or succeed again.
+func (n *Net) SetRefuse(b bool) { n.mu.Lock(); n.refuse = b; n.mu.Unlock() }
+
 func (n *Net) CutAll() {
 	for _, l := range n.Links() {
 		l.Cut()
@@ -299,7 +302,7 @@ func (n *Net) CutAll() {
 
 func (n *Net) Dial(ctx context.Context, network, address string) (net.Conn, error) {
 	n.mu.Lock()
-	refuse := n.Refuse
+	refuse := n.refuse
 	l := &Link{ID: len(n.links), C2S: newHalf(), S2C: newHalf()}
 	l.C2S.record = &l.RecC2S
 	l.S2C.record = &l.RecS2C
